@@ -17,6 +17,10 @@ from ..gen import c04_cells as gen
 from ..oracle import c04_crystal as X
 from .. import monitor, cover
 
+# monitors are self-sufficient (judge a call from its arguments and result): the repository's own tests run under them
+# as an extra workload in the thorough tier (vf/repotests.py)
+REPOTESTS = True
+
 RULE = ('unit cells: 9 cell kinds (7 crystal families, strongly tilted, arbitrarily oriented), 1-5 atoms, 1-3 types, an integer and '
         'a float-vector per-atom property, 5 position classes (generic / atom on the lattice point / only 0-and-1/2 positions / '
         'mixed / atoms on faces and edges), cell origin classes zero / within one cell vector of 0 / a few cells away / 1e3 cells '
